@@ -15,6 +15,7 @@ slot is refilled with a fresh empty fragment); reference children exist and
 indexes are in range.
 """
 import itertools
+import os
 from .. import common
 from ..instrument import wrap
 
@@ -445,7 +446,18 @@ def run(case, st):
             if w.hook_viol:
                 fail(st, case, step, op, 'hook-invariant', w.hook_viol[0])
                 return {'nontrivial': True}
-            bad = check_world(w)
+            try:
+                bad = check_world(w)
+            except common.CaseTimeout:
+                raise
+            except Exception as e:
+                # a derived view (firstChild, siblings, textContent, ...) that raises inside plasTeX is an answer that disagrees with the
+                # list model; an exception of the harness itself stays a harness error
+                import traceback as _tb
+                last = _tb.extract_tb(e.__traceback__)[-1]
+                if not last.filename.startswith(common.REPO):
+                    raise
+                bad = ('view-raises-' + type(e).__name__, '%s at %s:%d (%s)' % (e, os.path.basename(last.filename), last.lineno, last.line))
             if bad:
                 fail(st, case, step, op, bad[0], bad[1])
                 return {'nontrivial': True}
